@@ -76,7 +76,9 @@ def vec_result(a, p, ex):
 def cases(cls, argname, threshold=True):
   return [Case('fitted-noprep', {'self': self_spec(cls, 'none', True, threshold), argname: ArrSym()}),
           Case('fitted-prep', {'self': self_spec(cls, 'callable', True, threshold), argname: ArrSym()}),
-          Case('unfitted', {'self': self_spec(cls, 'none', False), argname: ArrSym()})]
+          Case('unfitted', {'self': self_spec(cls, 'none', False), argname: ArrSym()}),
+          # a fit that raised after preparing its inputs leaves preprocessor_ behind but no learned transformation: still not fitted
+          Case('fit-failed', {'self': self_spec(cls, 'none', False, extra={'preprocessor_': NoneT(), 'n_features_in_': Int(1)}), argname: ArrSym()})]
 
 
 def match_fitted(env, p):
